@@ -103,11 +103,11 @@ reg("C13", "exploration",
 
 reg("C05", "exploration",
     "F1 (identifier swarm: several names with different challenge types, CA lists authorizations/challenges in any order, offers subsets, pre-valid authorizations, "
-    "7 account key types), F1w (a name and its wildcard with every (base, wildcard) challenge-type pair in both declaration orders), and F6k/F6 (account key roll-overs between all ordered pairs of key types and edit/restart histories: the proof must use the key the CA holds when the hooks run, not a superseded one). Oracle: the CA's own computation "
+    "7 account key types), F1w (a name and its wildcard with every (base, wildcard) challenge-type pair in both declaration orders), F1h (generated hook tables in which challenge hooks fail on some invocations: the CA must not be told the challenge is ready), and F6k/F6 (account key roll-overs between all ordered pairs of key types and edit/restart histories: the proof must use the key the CA holds when the hooks run, not a superseded one). Oracle: the CA's own computation "
     "of key authorization / dns-01 digest / acmeIdentifier text / reverse-DNS name from the registered JWK and issued token vs what the hook process received; hook type == "
     "the type configured for the identifier the authorization is for; challenge POST only after the hooks exited successfully; no hook for an already valid authorization. "
     "Non-trivial = at least one authorization of a mapped order was judged.",
-    quick=[("F1", 1200), ("F1w", 360), ("F6k", 42), ("F6", 200)], thorough=[("F1", 80000), ("F1w", 20000), ("F6k", 42), ("F6", 10000), ("F6x", 10000)],
+    quick=[("F1", 1200), ("F1w", 360), ("F1h", 400), ("F6k", 42), ("F6", 200)], thorough=[("F1", 80000), ("F1w", 20000), ("F1h", 30000), ("F6k", 42), ("F6", 10000), ("F6x", 10000)],
     assumptions=["when a name and its wildcard use the same challenge type either configuration entry may be looked up (only type and proof values are judged)",
                  "no hook and no challenge POST when the CA does not offer the configured type is correct behaviour"])
 
